@@ -80,6 +80,21 @@ CHECKS = {
     technique="TLA+ model checking (TLC, complete graph of SimCamConfig: properties in effect, clamping, strides, buffer sizes vs. rendered extent incl. both bin2 variants' index formulas, streamer capture/render phases) bound to simulated.camera.c by replay of exported histories (21 observables per call) and by TLC trace validation (SimCamObs) of allocator/shape/frame traces; sanitizer and checking-allocator reports enter only as events",
     text="SimCamConfig.tla mirrors the camera's structs (properties, im.shape, both buffer sizes, HAL state, the streamer's capture/render pc with its captured full-resolution shape) with one action per HAL call over the real MAX of 8192, kinds x binning {1,2,4,8} x sample types x a boundary shape set x offsets; TLC completes the graph (unbounded histories) and checks reported shape/strides = clamped dims, read-back = in effect, frame copies exactly bytes_of_image, render extent (max of fill and every bin2 pass, AVX2 and plain) within the buffers, vector accesses legal for the buffers' alignment. Witness histories are replayed on the real code (AVX2 and plain builds); replayed plus directed/seeded scenarios (sets raced against the streamer at three gates, restarts, too-small caller buffers) run with a canary/quarantine allocator and under ASan, and every trace is judged by SimCamObs.",
     note="Trusted: TLC; the transcription of the bin2 index formulas (watched by a drift counter on pcg/sinf calls); streaming executed only up to 1 MiB (16 MiB thorough) per frame, larger configurations by model and set/get replay; out-of-bounds accesses not captured by the transcribed formulas are caught only by the instruments on executed configurations; trigger off (C18 covers triggering)."),
+ "C14": dict(
+    category="model_checking", design_ref="DESIGN.md section 6 (C14), section 15",
+    technique="TLA+ model checking (TLC on RawWriter composed with an OS model: write-all loop, short writes, start/stop cycles) bound to raw.c + platform.c by replay of every exported transition through a libc link seam and by TLC trace validation (FileObs) of OS-call traces with file read-back",
+    text="RawWriter.tla models the device's state, descriptor, running offset and the platform write-all loop with retries over an OS model with scripted short writes; TLC explores all set/start/append/stop/close histories for small constants and checks that the file equals the concatenation of the packets appended since the matching start. Every exported transition is replayed through the real HAL + raw device with the pwrite seam playing the short-write script (state and exact OS call sequence compared per step); all traces plus seeded random histories (all sample types, odd sizes, file:// URIs, 1-3 cycles, two interleaved devices, byte-granular short writes) are judged by FileObs in TLC with the files read back.",
+    note="Trusted: TLC; the libc seam for platform.c (virtual descriptors issued lowest-free, so a stale number really lands in another device's file); the independent BigTIFF reader tools/tiffread.py (C15); each case runs in a child with a 256 KB stack and a watchdog so recursion / hangs become events; paths are fresh per acquisition (file_create does not truncate); close/unlink/access are never made to fail."),
+ "C15": dict(
+    category="model_checking", design_ref="DESIGN.md section 6 (C15), section 15",
+    technique="TLA+ model checking (TLC on TiffWriter incl. the side-by-side composite: offsets, sections, chain patching) bound to tiff.cpp / side-by-side-tiff.cpp by transition replay, with every produced file parsed by an independent BigTIFF reader whose events are judged by the TLA+ observation spec TiffObs in TLC",
+    text="TiffWriter.tla models last_offset_/last_ifd_next_offset_/frame_count_, the IFD/data/strings sections with 8-byte alignment, link patching, stop-only-when-Running and the composite device driving the inner writer; TLC checks for small constants that the chain has exactly N directories ending in zero, sections are disjoint and inside the file. The real devices are driven through the real HAL along every exported history and seeded ones (8 sample types, odd shapes, metadata strings, fractional pixel scales, file:// URIs, packet groupings, repeated cycles); each finished file is parsed by tools/tiffread.py and TiffObs requires header II/43/8/0, exactly N directories, zero terminal link, in-file non-overlapping structures, width/height/bits/format tags, strip bytes equal to the frame, JSON description with ids/timestamps, user metadata on frame 0 (tiff) or in metadata.json (tiff-json).",
+    note="Trusted: TLC; the libc seam for platform.c (virtual descriptors issued lowest-free, so a stale number really lands in another device's file); the independent BigTIFF reader tools/tiffread.py (C15); each case runs in a child with a 256 KB stack and a watchdog so recursion / hangs become events; paths are fresh per acquisition (file_create does not truncate); close/unlink/access are never made to fail."),
+ "C16": dict(
+    category="fault_enumeration", design_ref="DESIGN.md section 6 (C16), section 15",
+    technique="fault enumeration (every fallible OS call index x transient/persistent over 32 reference histories x 4 storage kinds) on model-checked TLA+ specs (RawWriter/TiffWriter with faults), every OS-call trace judged by the TLA+ observation spec FileObs in TLC",
+    text="The fault variants of RawWriter/TiffWriter are model-checked (failure reported no later than the failing append, no re-entrancy, only owned descriptors); the harness enumerates 408 fault cases (fail the k-th open/flock/pwrite, transient or persistent, for every k of 32 reference histories incl. open/close without start, repeated start/stop, close while running, two devices alive so stale numbers are re-issued) plus seeded random ones, each in a child with a small stack and watchdog; FileObs keeps the descriptor table and ownership per device and refuses double/foreign/std closes, writes after close, leaks, unreported failures, crashes, stack overflows and timeouts.",
+    note="Trusted: TLC; the libc seam for platform.c (virtual descriptors issued lowest-free, so a stale number really lands in another device's file); the independent BigTIFF reader tools/tiffread.py (C15); each case runs in a child with a 256 KB stack and a watchdog so recursion / hangs become events; paths are fresh per acquisition (file_create does not truncate); close/unlink/access are never made to fail."),
 }
 
 def main():
